@@ -30,10 +30,11 @@ type vMonitor struct {
 	pend        []func(line string)
 	before_     string
 	beforeHolds []vHoldSnap
-	headAdm     map[int]bool    // per key: was an admissible head already queued at the previous quiescent moment
-	opTimeouts  map[int]bool    // keys on which a waiter was answered TIMEOUT during the current op
-	opExpiries  map[int]bool    // keys on which a hold ended with EXPRIED during the current op
-	updatedKeys map[string]bool // key/lockId pairs whose terms were changed by a re-lock or update (looser upper bound)
+	headAdm     map[int]bool        // per key: was an admissible head already queued at the previous quiescent moment
+	opTimeouts  map[int]bool        // keys on which a waiter was answered TIMEOUT during the current op
+	opExpiries  map[int]bool        // keys on which a hold ended with EXPRIED during the current op
+	crashOnly   bool                // report C13 signatures only
+	updatedKeys map[string]bool     // key/lockId pairs whose terms were changed by a re-lock or update (looser upper bound)
 	ledger      map[int]map[int]int // per key: LockId → depth, kept from the REPLIES alone (not from the engine's records)
 }
 
@@ -43,6 +44,9 @@ func vNewMonitor(out *vOut, x *vRun) *vMonitor {
 
 // report defers emission until the whole op line is known (it is the replay).
 func (m *vMonitor) report(sig, what string) {
+	if m.crashOnly && !strings.HasPrefix(sig, "C13:") {
+		return // wild mode: flag combinations outside the modelled subset — only crashes and hangs are judged
+	}
 	if m.seen[sig] {
 		return
 	}
